@@ -22,6 +22,10 @@
 (*          "shared" = ALL values of the PUT are instances of ONE Value     *)
 (*          class (what distinguishes them is the payload of the instance)  *)
 (*          and every algorithm has a second state vector s2 (value v)      *)
+(*   evs    which moments the two conforming events e1, e2 use:             *)
+(*          "boot_dow" boot=True | dow=1+time;  "dow0_dom" dow=0 (Monday,   *)
+(*          a defined value that is falsy)+time | dom=15+time;              *)
+(*          "day_dow0" day=date+time | dow=0+time                           *)
 (*   viol   "none" or the name of ONE clause of rule_01..rule_11 that the  *)
 (*          package breaks                                                 *)
 (*   pos    the element that carries the violation: [k |-> factory kind,   *)
@@ -30,7 +34,7 @@
 (*          | a1.dep | a1.fb | e1 | e2 | pkg                               *)
 (* Every alg-kind factory of the PUT has algorithm a1 (and a2 in shape     *)
 (* chain2), each with one state vector s holding the values v and w; the   *)
-(* events factory returns two events e1 (boot) and e2 (weekday + time).    *)
+(* events factory returns two events e1 and e2 (moments given by evs).     *)
 (*                                                                         *)
 (* Pinned = TRUE transcribes _walk as in the pinned tree (the regress      *)
 (* branch iterates a.feedback(), `a` being the loop variable of the        *)
@@ -123,12 +127,21 @@ Viol == {
   \* rule_09: has state vectors
   V("alg_zero_svs",     "alg",   {"rule_09"}),
   \* rule_10: moments
-  V("mom_two",          "event", {"rule_10"}),
+  V("mom_two",          "event", {"rule_10"}),   \* boot=True and dow=1
+  \* two fields defined, one of them with a value that is falsy (False, 0)
+  V("mom_two_bf_day",   "event", {"rule_10"}),   \* boot=False and a date
+  V("mom_two_bf_dom",   "event", {"rule_10"}),   \* boot=False and dom=15
+  V("mom_two_bf_dow",   "event", {"rule_10"}),   \* boot=False and dow=1
+  V("mom_two_dow0_dom", "event", {"rule_10"}),   \* dow=0 and dom=15
+  V("mom_two_dow0_day", "event", {"rule_10"}),   \* dow=0 and a date
   V("mom_none",         "event", {"rule_10"}),
   V("mom_day_type",     "event", {"rule_10"}),
   V("mom_dom_type",     "event", {"rule_10"}),
   V("mom_dow_type",     "event", {"rule_10"}),
-  V("mom_notime",       "event", {"rule_10"}),
+  V("mom_notime",       "event", {"rule_10"}),   \* dow=1 without a time of day
+  V("mom_notime_dow0",  "event", {"rule_10"}),   \* dow=0 without a time of day
+  V("mom_notime_dom",   "event", {"rule_10"}),   \* dom=15 without a time of day
+  V("mom_notime_day",   "event", {"rule_10"}),   \* a date without a time of day
   V("mom_time_type",    "event", {"rule_10"}),
   \* rule_11: references resolve
   V("ref_unres_alg",    "ref",   {"rule_11"}),
@@ -179,7 +192,14 @@ SVals(vl)  == IF vl = "shared" THEN {"s.v", "s.w", "s2.v"} ELSE {"s.v", "s.w"}
 ValPositions(K, s, vl) ==
     UNION { { P(k, a \o "." \o n) : a \in SeqRange(AlgSeq(K, s, k)), n \in SVals(vl) } : k \in K \cap AlgKinds }
 
-Positions(K, s, vl, x) ==
+(* event layouts: the moments of the conforming events.  The non-default
+   layouts are combined with the conforming package and with the clauses that
+   sit on an event (the other event keeps the moment of the layout). *)
+EvLayouts == {"boot_dow", "dow0_dom", "day_dow0"}
+EvLayoutsOf(K, s) == IF "events" \in K /\ s \in {"root", "chain2"} THEN EvLayouts ELSE {"boot_dow"}   \* rule_10 does not look at references
+
+Positions(K, s, vl, el, x) ==
+    IF el # "boot_dow" THEN (IF x.c = "event" /\ vl = "own" /\ "events" \in K THEN { P("events", "e1"), P("events", "e2") } ELSE {}) ELSE
     IF vl = "shared" THEN (IF x.v \in SharedViol THEN ValPositions(K, s, vl) ELSE {}) ELSE
     CASE x.c = "fac"   -> { P(k, "fac") : k \in K }
       [] x.c = "param" -> UNION { { P(k, "p" \o Num(i)) : i \in 1..NParams(k) } : k \in K \cap AlgKinds }
@@ -191,24 +211,26 @@ Positions(K, s, vl, x) ==
       [] x.c = "event" -> IF "events" \in K THEN { P("events", "e1"), P("events", "e2") } ELSE {}
       [] OTHER         -> {}
 
-D(K, s, vl, v, p) == [kinds |-> K, shape |-> s, vals |-> vl, viol |-> v, pos |-> p]
+D(K, s, vl, el, v, p) == [kinds |-> K, shape |-> s, vals |-> vl, evs |-> el, viol |-> v, pos |-> p]
 LayoutsOf(K) == IF K \cap AlgKinds = {} THEN {"own"} ELSE ValLayouts
+(* <<value layout, event layout>>: the non-default ones are not multiplied with each other *)
+Variants(K, s) == { <<vl, "boot_dow">> : vl \in LayoutsOf(K) } \cup { <<"own", el>> : el \in EvLayoutsOf(K, s) }
 KindSets == (SUBSET Kinds) \ {{}}
 
-Conforming  == UNION { UNION { { D(K, s, vl, "none", NoPos) : s \in ShapesOf(K) } : vl \in LayoutsOf(K) } : K \in KindSets }
+Conforming  == UNION { UNION { { D(K, s, w[1], w[2], "none", NoPos) : w \in Variants(K, s) } : s \in ShapesOf(K) } : K \in KindSets }
 ViolatingOf(VS) ==
-    UNION { UNION { UNION { UNION { { D(K, s, vl, x.v, p) : p \in Positions(K, s, vl, x) } : x \in VS } : s \in ShapesOf(K) } : vl \in LayoutsOf(K) } : K \in KindSets }
-Descriptors == Conforming \cup ViolatingOf(Viol) \cup { D({}, "root", "own", NoFactory.v, P("-", "pkg")) }
+    UNION { UNION { UNION { UNION { { D(K, s, w[1], w[2], x.v, p) : p \in Positions(K, s, w[1], w[2], x) } : x \in VS } : w \in Variants(K, s) } : s \in ShapesOf(K) } : K \in KindSets }
+Descriptors == Conforming \cup ViolatingOf(Viol) \cup { D({}, "root", "own", "boot_dow", NoFactory.v, P("-", "pkg")) }
 Observed    == ViolatingOf(Unclaimed)
 
 (* membership in Descriptors \cup Observed without building the sets *)
 WellFormed(d) ==
     /\ d.kinds \subseteq Kinds
-    /\ \/ d.kinds = {} /\ d.shape = "root" /\ d.vals = "own" /\ d.viol = NoFactory.v /\ d.pos = P("-", "pkg")
-       \/ /\ d.kinds # {} /\ d.shape \in ShapesOf(d.kinds) /\ d.vals \in LayoutsOf(d.kinds)
+    /\ \/ d.kinds = {} /\ d.shape = "root" /\ d.vals = "own" /\ d.evs = "boot_dow" /\ d.viol = NoFactory.v /\ d.pos = P("-", "pkg")
+       \/ /\ d.kinds # {} /\ d.shape \in ShapesOf(d.kinds) /\ <<d.vals, d.evs>> \in Variants(d.kinds, d.shape)
           /\ \/ d.viol = "none" /\ d.pos = NoPos
              \/ /\ d.viol \in { x.v : x \in Viol \cup Unclaimed }
-                /\ d.pos \in Positions(d.kinds, d.shape, d.vals, VR(d.viol))
+                /\ d.pos \in Positions(d.kinds, d.shape, d.vals, d.evs, VR(d.viol))
 
 -----------------------------------------------------------------------------
 (* PROPERTY LEVEL: the meaning of C16 *)
